@@ -1,5 +1,6 @@
 """Small shared helpers for property modules.  Keep boring."""
 from __future__ import annotations
+import os
 import warnings
 import contextlib
 import io
@@ -123,3 +124,25 @@ def rnd(x, nd=6):
     if isinstance(x, float):
         return float("%.*g" % (nd, x))
     return x
+
+
+def fresh_python(code, timeout=300):
+    """run `code` in a FRESH interpreter (pristine module-level state of the library: caches, class flags, debug
+    flag) with this process' environment; the code prints one JSON document as its last stdout line.
+    Returns (obj, None) or (None, error text).  Used for call-order (history) explorations, where a state left
+    behind by an earlier call of the same process is exactly what is being looked for."""
+    import json
+    import subprocess
+    import sys
+    env = dict(os.environ, OMP_NUM_THREADS="1", MKL_NUM_THREADS="1", PYTHONHASHSEED="0")
+    p = subprocess.run([sys.executable, "-W", "ignore", "-c", code], env=env, stdout=subprocess.PIPE,
+                       stderr=subprocess.PIPE, text=True, timeout=timeout)
+    if p.returncode != 0:
+        return None, "exit %d: %s" % (p.returncode, p.stderr.strip().split("\n")[-1][:300])
+    lines = [l for l in p.stdout.strip().split("\n") if l.strip()]
+    if not lines:
+        return None, "no output"
+    try:
+        return json.loads(lines[-1]), None
+    except Exception as e:       # noqa
+        return None, "unparsable output: %s" % lines[-1][:200]
